@@ -214,7 +214,8 @@ def gen_tree_case(rng, i):
     if not recursive_roots:
         recursive_roots = ["t"]
     explicit = [p for p in paths if p not in recursive_roots and rng.random() < 0.12]
-    excl_root = rng.choice([None, None, ["internal"], ["/gen", "v2"], ["util0$"]])
+    # list entries are separate expressions: an inline flag in one entry must not reach the next (upper-case entries match no directory here)
+    excl_root = rng.choice([None, None, ["internal"], ["/gen", "v2"], ["util0$"], ["(?i)/INTERNAL", "/CORE"], ["(?i)zzz", "/API", "UTIL"]])
     pkcfg = {}
     for n, rr in enumerate(recursive_roots):
         c = {"recursive": True, "structname": "R%d_{{.InterfaceName}}" % n}
@@ -226,7 +227,7 @@ def gen_tree_case(rng, i):
             if rng.random() < 0.5:
                 c["exclude-interface-regex"] = "Two$"
         if rng.random() < 0.4:
-            c["exclude-subpkg-regex"] = rng.choice([["mocks"], ["core0"], ["api", "gen"], ["internal0/"]])
+            c["exclude-subpkg-regex"] = rng.choice([["mocks"], ["core0"], ["api", "gen"], ["internal0/"], ["(?i)/MOCKS", "/CORE", "/Api"], ["(?s)gen.", "V2|UTIL"]])
         pkcfg[rr] = c
     for n, e in enumerate(explicit):
         pkcfg[e] = {"all": True, "structname": "E%d_{{.InterfaceName}}" % n}
@@ -398,8 +399,16 @@ def body(ctx, replay=None):
         cases = [replay]
     else:
         cases = gen_table_cases(ctx)
-        nt, nc = (14, 10) if ctx.tier == "quick" else (120, 60)
+        nt, nc = (50, 10) if ctx.tier == "quick" else (400, 60)
         cases += [gen_tree_case(ctx.rng, i) for i in range(nt)]
+        # fixed trees: every entry of an exclusion list is its own expression (flags, anchors and alternations do not reach the neighbours)
+        fdirs = {"t": "go", "t/svc0": "go", "t/svc0/internal0": "go", "t/svc0/core0": "go", "t/svc0/api0": "go", "t/svc0/api0/gen0": "go", "t/lib0": "go", "t/lib0/util0": "go", "t/lib0/mocks0": "go"}
+        for j, lst in enumerate([["(?i)/INTERNAL", "/CORE"], ["(?i)zzz", "/API", "UTIL"], ["/CORE", "(?i)/INTERNAL"], ["^internal0", "core0$"], ["api0$", "^example.com/m/t/lib0/u"], ["(?i)/MOCKS", "/Core0", "/gen0$"]]):
+            for where in ("root", "pkg"):
+                c = {"recursive": True, "all": True, "structname": "R0_{{.InterfaceName}}"}
+                if where == "pkg":
+                    c["exclude-subpkg-regex"] = lst
+                cases.append({"kind": "tree", "i": 9000 + j * 2 + (where == "pkg"), "dirs": fdirs, "pkcfg": {"t": c}, "excl_root": lst if where == "root" else None, "root_recursive": False})
         cases += [gen_configs_case(ctx.rng, i) for i in range(nc)]
         ctx.exhaustive = False
     ctx.run_cases(cases, eval_case)
